@@ -1,5 +1,335 @@
 package main
 
+// Scheduler instrumentation (DESIGN.md §3.1). Applied to a fixed list of
+// repository files and to virtual copies of errgroup and schedgroup. Every
+// rewrite is statement- or expression-local and keeps evaluation order; the
+// label of a scheduling point is "file:line" of the original source.
+
+import (
+	"encoding/json"
+	"fmt"
+	"go/ast"
+	"go/token"
+	"os"
+	"os/exec"
+	"path/filepath"
+	"strconv"
+	"strings"
+
+	"golang.org/x/tools/go/ast/astutil"
+)
+
+const rtBase = "github.com/mdlayher/corerad/verifrt/"
+
+var importSwap = map[string][2]string{
+	"sync":                              {"sync", rtBase + "vsync"},
+	"sync/atomic":                       {"atomic", rtBase + "vatomic"},
+	"math/rand":                         {"rand", rtBase + "vrand"},
+	"golang.org/x/sync/errgroup":        {"errgroup", rtBase + "errgroup"},
+	"github.com/mdlayher/schedgroup":    {"schedgroup", rtBase + "schedgroup"},
+	"github.com/mdlayher/sdnotify":      {"sdnotify", rtBase + "sdnotify"},
+}
+
+var repoFiles = []string{
+	"internal/corerad/advertise.go",
+	"internal/corerad/listener.go",
+	"internal/corerad/monitor.go",
+	"internal/corerad/server.go",
+	"internal/netstate/watcher.go",
+}
+
+type instr struct {
+	s     *staged
+	base  string
+	skip  map[ast.Node]bool
+	ntemp int
+	stats map[string]int
+}
+
+func (in *instr) label(n ast.Node) *ast.BasicLit {
+	p := in.s.fset.Position(n.Pos())
+	return &ast.BasicLit{Kind: token.STRING, Value: strconv.Quote(fmt.Sprintf("%s:%d", in.base, p.Line))}
+}
+
+func sel(pkg, name string) ast.Expr {
+	return &ast.SelectorExpr{X: ast.NewIdent(pkg), Sel: ast.NewIdent(name)}
+}
+
+func call(fun ast.Expr, args ...ast.Expr) *ast.CallExpr {
+	return &ast.CallExpr{Fun: fun, Args: args}
+}
+
+func (in *instr) temp() *ast.Ident {
+	in.ntemp++
+	return ast.NewIdent(fmt.Sprintf("vs_t%d", in.ntemp))
+}
+
+func define(lhs *ast.Ident, rhs ast.Expr) ast.Stmt {
+	return &ast.AssignStmt{Lhs: []ast.Expr{lhs}, Tok: token.DEFINE, Rhs: []ast.Expr{rhs}}
+}
+
+func unparen(e ast.Expr) ast.Expr {
+	for {
+		p, ok := e.(*ast.ParenExpr)
+		if !ok {
+			return e
+		}
+		e = p.X
+	}
+}
+
+func isRecv(e ast.Expr) (*ast.UnaryExpr, bool) {
+	u, ok := unparen(e).(*ast.UnaryExpr)
+	if ok && u.Op == token.ARROW {
+		return u, true
+	}
+	return nil, false
+}
+
+func isCtxName(e ast.Expr) bool {
+	switch x := e.(type) {
+	case *ast.Ident:
+		return strings.Contains(strings.ToLower(x.Name), "ctx")
+	case *ast.SelectorExpr:
+		return strings.Contains(strings.ToLower(x.Sel.Name), "ctx")
+	}
+	return false
+}
+
+func isCancelName(e ast.Expr) bool {
+	switch x := e.(type) {
+	case *ast.Ident:
+		return strings.Contains(strings.ToLower(x.Name), "cancel")
+	case *ast.SelectorExpr:
+		return strings.Contains(strings.ToLower(x.Sel.Name), "cancel")
+	}
+	return false
+}
+
+func (in *instr) rewriteSelect(c *astutil.Cursor, n *ast.SelectStmt) {
+	if _, ok := c.Parent().(*ast.LabeledStmt); ok {
+		fatalf("%s: labeled select statements are not supported by the instrumenter", in.s.fset.Position(n.Pos()))
+	}
+	var pre []ast.Stmt
+	var cases []ast.Expr
+	hasDefault := "false"
+	sv := in.temp()
+	idx := 0
+	for _, st := range n.Body.List {
+		cc := st.(*ast.CommClause)
+		if cc.Comm == nil {
+			hasDefault = "true"
+			continue
+		}
+		i := &ast.BasicLit{Kind: token.INT, Value: strconv.Itoa(idx)}
+		switch comm := cc.Comm.(type) {
+		case *ast.SendStmt:
+			tc, tv := in.temp(), in.temp()
+			pre = append(pre, define(tc, comm.Chan), define(tv, comm.Value))
+			cases = append(cases, call(sel("vsched", "SendCase"), tc, tv))
+			comm.Chan = call(sel("vsched", "MS"), sv, i, tc)
+			comm.Value = tv
+			in.skip[comm] = true
+		case *ast.ExprStmt:
+			u, ok := isRecv(comm.X)
+			if !ok {
+				fatalf("%s: unsupported select case", in.s.fset.Position(comm.Pos()))
+			}
+			tc := in.temp()
+			pre = append(pre, define(tc, u.X))
+			cases = append(cases, call(sel("vsched", "RecvCase"), tc))
+			u.X = call(sel("vsched", "MR"), sv, i, tc)
+			in.skip[u] = true
+		case *ast.AssignStmt:
+			if len(comm.Rhs) != 1 {
+				fatalf("%s: unsupported select case", in.s.fset.Position(comm.Pos()))
+			}
+			u, ok := isRecv(comm.Rhs[0])
+			if !ok {
+				fatalf("%s: unsupported select case", in.s.fset.Position(comm.Pos()))
+			}
+			tc := in.temp()
+			pre = append(pre, define(tc, u.X))
+			cases = append(cases, call(sel("vsched", "RecvCase"), tc))
+			u.X = call(sel("vsched", "MR"), sv, i, tc)
+			in.skip[u] = true
+			in.skip[comm] = true
+		default:
+			fatalf("%s: unsupported select case %T", in.s.fset.Position(cc.Pos()), comm)
+		}
+		cc.Body = append([]ast.Stmt{&ast.ExprStmt{X: call(sel("vsched", "Woke"), sv, in.label(n))}}, cc.Body...)
+		idx++
+	}
+	args := append([]ast.Expr{in.label(n), ast.NewIdent(hasDefault)}, cases...)
+	pre = append(pre, define(sv, call(sel("vsched", "Select"), args...)))
+	in.skip[n] = true
+	blk := &ast.BlockStmt{List: append(pre, n)}
+	c.Replace(blk)
+	in.stats["select"]++
+}
+
+func (in *instr) pre(c *astutil.Cursor) bool {
+	n := c.Node()
+	if n == nil || in.skip[n] {
+		return true
+	}
+	switch x := n.(type) {
+	case *ast.RangeStmt:
+		// range over a channel would be an uninstrumented receive.
+		// (Cannot type-check here; the target files have none: report any range whose
+		// expression is obviously a channel name.)
+		if id, ok := x.X.(*ast.Ident); ok && (strings.HasSuffix(id.Name, "C") || strings.HasSuffix(id.Name, "Ch")) {
+			fatalf("%s: range over what looks like a channel (%s) is not instrumented", in.s.fset.Position(x.Pos()), id.Name)
+		}
+	case *ast.SelectStmt:
+		in.rewriteSelect(c, x)
+		return true
+	case *ast.DeferStmt:
+		// Calls evaluated at defer time must not become scheduling points then.
+		in.skip[x.Call] = true
+		if id, ok := x.Call.Fun.(*ast.Ident); ok && id.Name == "close" && len(x.Call.Args) == 1 {
+			x.Call.Fun = sel("vsched", "Close")
+			x.Call.Args = []ast.Expr{in.label(x), x.Call.Args[0]}
+			in.stats["close"]++
+		}
+	case *ast.GoStmt:
+		var pre []ast.Stmt
+		for i, a := range x.Call.Args {
+			switch a.(type) {
+			case *ast.Ident, *ast.BasicLit:
+			default:
+				t := in.temp()
+				pre = append(pre, define(t, a))
+				x.Call.Args[i] = t
+			}
+		}
+		body := &ast.FuncLit{Type: &ast.FuncType{Params: &ast.FieldList{}}, Body: &ast.BlockStmt{List: []ast.Stmt{&ast.ExprStmt{X: x.Call}}}}
+		g := &ast.ExprStmt{X: call(sel("vsched", "Go"), in.label(x), body)}
+		if len(pre) > 0 {
+			c.Replace(&ast.BlockStmt{List: append(pre, g)})
+		} else {
+			c.Replace(g)
+		}
+		in.stats["go"]++
+		return true
+	case *ast.SendStmt:
+		c.Replace(&ast.ExprStmt{X: call(sel("vsched", "Send"), in.label(x), x.Chan, x.Value)})
+		in.stats["send"]++
+		return true
+	case *ast.AssignStmt:
+		if len(x.Lhs) == 2 && len(x.Rhs) == 1 {
+			if u, ok := isRecv(x.Rhs[0]); ok && !in.skip[u] {
+				x.Rhs[0] = call(sel("vsched", "Recv2"), in.label(u), u.X)
+				in.stats["recv"]++
+				return true
+			}
+		}
+	case *ast.UnaryExpr:
+		if x.Op == token.ARROW {
+			c.Replace(call(sel("vsched", "Recv"), in.label(x), x.X))
+			in.stats["recv"]++
+			return true
+		}
+	case *ast.CallExpr:
+		switch f := x.Fun.(type) {
+		case *ast.Ident:
+			if f.Name == "close" && len(x.Args) == 1 {
+				lb := in.label(x)
+				x.Fun = sel("vsched", "Close")
+				x.Args = []ast.Expr{lb, x.Args[0]}
+				in.stats["close"]++
+				return true
+			}
+			if isCancelName(f) && len(x.Args) == 0 {
+				x.Fun = call(sel("vsched", "Pre"), in.label(x), f)
+				in.stats["cancel"]++
+				return true
+			}
+		case *ast.SelectorExpr:
+			if len(x.Args) == 0 && f.Sel.Name == "Err" && isCtxName(f.X) {
+				x.Fun = call(sel("vsched", "Pre"), in.label(x), f)
+				in.stats["ctxerr"]++
+				return true
+			}
+			if len(x.Args) == 0 && isCancelName(f) {
+				x.Fun = call(sel("vsched", "Pre"), in.label(x), f)
+				in.stats["cancel"]++
+				return true
+			}
+		}
+	}
+	return true
+}
+
+func instrumentFile(s *staged, base string, stats map[string]int) {
+	in := &instr{s: s, base: base, skip: map[ast.Node]bool{}, stats: stats}
+	// Imports.
+	for _, im := range s.file.Imports {
+		p, _ := strconv.Unquote(im.Path.Value)
+		if sw, ok := importSwap[p]; ok {
+			if im.Name != nil && im.Name.Name != sw[0] {
+				fatalf("%s: import %q is renamed to %s; not supported", s.path, p, im.Name.Name)
+			}
+			im.Name = ast.NewIdent(sw[0])
+			im.Path.Value = strconv.Quote(sw[1])
+			im.Path.ValuePos = token.NoPos
+		}
+	}
+	for _, d := range s.file.Decls {
+		fd, ok := d.(*ast.FuncDecl)
+		if !ok || fd.Body == nil {
+			continue
+		}
+		astutil.Apply(fd.Body, in.pre, nil)
+	}
+	astutil.AddImport(s.fset, s.file, rtBase+"vsched")
+}
+
+func modDir(mod string) string {
+	cmd := exec.Command("go", "list", "-m", "-json", mod)
+	cmd.Dir = *repo
+	cmd.Env = append(os.Environ(), "GOFLAGS=-mod=mod", "GOPROXY=off", "GOSUMDB=off")
+	out, err := cmd.Output()
+	if err != nil {
+		fatalf("go list -m %s: %v", mod, err)
+	}
+	var m struct{ Dir string }
+	if err := json.Unmarshal(out, &m); err != nil || m.Dir == "" {
+		fatalf("go list -m %s: no Dir (%v)", mod, err)
+	}
+	return m.Dir
+}
+
+func stageVirtual(srcDir, virt string, files []string, instrument map[string]bool, stats map[string]int) {
+	for _, f := range files {
+		src := filepath.Join(srcDir, f)
+		dstVirtual := filepath.Join(*repo, "verifrt", virt, f)
+		if !instrument[f] {
+			// Copied verbatim (the module cache is read-only; map directly).
+			mapping[dstVirtual] = src
+			continue
+		}
+		s := loadAbs(src)
+		s.name = virt + "__" + f
+		instrumentFile(s, virt+"/"+f, stats)
+		s.path = dstVirtual
+		s.write()
+	}
+}
+
 func instrumentAll(dialer *staged) {
-	fatalf("sched mode not implemented yet")
+	stats := map[string]int{}
+	instrumentFile(dialer, "dialer.go", stats)
+	dialer.write()
+	for _, rel := range repoFiles {
+		s := load(rel)
+		instrumentFile(s, filepath.Base(rel), stats)
+		s.write()
+	}
+	stageVirtual(filepath.Join(modDir("golang.org/x/sync"), "errgroup"), "errgroup",
+		[]string{"errgroup.go", "go120.go"}, map[string]bool{"errgroup.go": true}, stats)
+	stageVirtual(modDir("github.com/mdlayher/schedgroup"), "schedgroup",
+		[]string{"group.go"}, map[string]bool{"group.go": true}, stats)
+	b, _ := json.Marshal(stats)
+	fmt.Printf("vstage: instrumented %s\n", b)
 }
